@@ -159,30 +159,47 @@ func xmlScan(doc []byte) []mTok {
 			toks = append(toks, mTok{kind: 'P', s: i, e: k + 2})
 			i = k + 2
 		case strings.HasPrefix(rest, "<!"):
-			depth, k := 0, i+2
+			// Directive, delimited exactly as encoding/xml (Decoder.rawToken) does it — the decoder uses
+			// encoding/xml with capture off and inspectxml, a wrapper around the same encoding/xml
+			// tokenizer, with capture on:
+			//  * the byte after `<!` is taken verbatim: it neither opens a quote nor nests nor ends the
+			//    directive (`<!'- x -->` ends at its first `>`; `<!>` does not end there);
+			//  * then up to the first `>` outside quotes at nesting depth 0; `'`/`"` open a quote closed by
+			//    the same byte; outside quotes `<` nests (unless it starts `<!--`, a comment skipped up to
+			//    the next `-->`) and `>` un-nests; `[` and `]` mean nothing.
+			k := i + 3
+			depth := 0
 			var q byte
-			for ; k < n; k++ {
+			closed := false
+			for k < n {
 				c := doc[k]
-				if q != 0 {
-					if c == q {
-						q = 0
-					}
-					continue
+				if q == 0 && c == '>' && depth == 0 {
+					closed = true
+					break
 				}
-				if c == '"' || c == '\'' {
+				k++
+				switch {
+				case c == q:
+					q = 0
+				case q != 0:
+				case c == '"' || c == '\'':
 					q = c
-				} else if c == '[' || c == '<' {
-					depth++
-				} else if c == ']' {
+				case c == '>':
 					depth--
-				} else if c == '>' {
-					if depth <= 0 {
-						break
+				case c == '<':
+					if strings.HasPrefix(string(doc[k:min(n, k+3)]), "!--") {
+						e := find(k+3, "-->")
+						if e < 0 {
+							k = n
+						} else {
+							k = e + 3
+						}
+					} else {
+						depth++
 					}
-					depth--
 				}
 			}
-			if k >= n {
+			if !closed {
 				toks = append(toks, mTok{kind: 'X', s: i, e: n})
 				return toks
 			}
@@ -466,7 +483,8 @@ func xmlNamespaces(doc []byte, toks []mTok) map[string][]string {
 
 // qnameExpansions: the IRIs a written name may expand to (encoding/xml: an undeclared prefix is kept
 // as the "namespace"; unprefixed attributes have none; unprefixed elements take the default).
-func qnameExpansions(ns map[string][]string, qname string, isAttr bool) []string {
+func qnameExpansions(nv nsView, qname string, isAttr bool) []string {
+	ns := nv.decl
 	prefix, local := "", qname
 	if k := strings.IndexByte(qname, ':'); k > 0 && k < len(qname)-1 {
 		prefix, local = qname[:k], qname[k+1:]
@@ -481,10 +499,54 @@ func qnameExpansions(ns map[string][]string, qname string, isAttr bool) []string
 	for _, n := range ns[prefix] {
 		out = append(out, n+local)
 	}
-	if len(out) == 0 || prefix == "" {
+	if len(out) == 0 || prefix == "" || (nv.undeclaredAt != nil && nv.undeclaredAt(prefix)) {
 		out = append(out, prefix+local)
 	}
 	return out
+}
+
+// nsView: the declarations of the whole document plus "is this prefix undeclared at the tag concerned".
+type nsView struct {
+	decl         map[string][]string
+	undeclaredAt func(prefix string) bool
+}
+
+// prefixInScope: is `xmlns:prefix` declared by the start tag toks[at] or one of its open ancestors?
+func prefixInScope(toks []mTok, at int, prefix string) bool {
+	declares := func(t *mTok) bool {
+		for _, a := range t.attrs {
+			if a.key == "xmlns:"+prefix {
+				return true
+			}
+		}
+		return false
+	}
+	var open []bool
+	for i := 0; i < len(toks) && i <= at; i++ {
+		t := &toks[i]
+		switch t.kind {
+		case 'S':
+			if i == at {
+				if declares(t) {
+					return true
+				}
+				for _, d := range open {
+					if d {
+						return true
+					}
+				}
+				return false
+			}
+			if !t.selfCl {
+				open = append(open, declares(t))
+			}
+		case 'E':
+			if len(open) > 0 {
+				open = open[:len(open)-1]
+			}
+		}
+	}
+	return true // not a start tag: no opinion, keep the document-wide declarations only
 }
 
 func containsStr(xs []string, x string) bool {
@@ -544,14 +606,15 @@ func rdfxmlSlot(sc sliceCtx, slot int) (sub, msg string) {
 				}
 			}
 		}
-		for _, t := range toks {
-			if t.kind == 'X' || (t.kind == '!' && !strings.HasPrefix(string(sc.doc[t.s:t.e]), "<!DOCTYPE")) {
-				return "", "" // a directive the scanner may delimit differently from encoding/xml: not checkable
-			}
-		}
+		// (xmlScan delimits directives exactly as encoding/xml does, and everything before an unterminated
+		// construct 'X' — where encoding/xml stops with a syntax error — is delimited as well: no escape
+		// hatch for documents with directives)
 		return "xml-boundary", "range is " + loc.why
 	}
-	ns := xmlNamespaces(sc.doc, toks)
+	ns0 := xmlNamespaces(sc.doc, toks)
+	// encoding/xml keeps a prefix that is not declared in scope as the "namespace": such a name expands
+	// to prefix+local even when the prefix is declared elsewhere in the document
+	ns := nsView{ns0, func(prefix string) bool { return !prefixInScope(toks, loc.fromTok, prefix) }}
 	iri, isIRI := termIRI(sc.term)
 	lit, isLit := sc.term.(rdf.Literal)
 	label, isLabelled := labelOf(sc.res, sc.term)
